@@ -121,20 +121,21 @@ type vmArm struct {
 }
 
 type vmModel struct {
-	Func        *ast.FuncDecl
-	FuncName    string
-	Switch      *ast.SwitchStmt
-	Loop        *ast.ForStmt
-	Arms        map[string]*vmArm // by opcode name
-	Unhandled   []string          // opcode constants without a case
-	Default     bool
-	Undecided   []string
-	Closures    map[string]*ast.FuncLit // by role (readByte, readOp, readU16, readUvarint, readConst, push, pop, peek, set, blockGet, blockSet), else by variable name
-	Roles       map[types.Object]string // closure variable -> role
-	MethodRoles map[types.Object]string // helper written as a method of the machine -> role
-	StackSize   int64
-	BlockSize   int64
-	Recv        types.Object
+	Func          *ast.FuncDecl
+	FuncName      string
+	Switch        *ast.SwitchStmt
+	Loop          *ast.ForStmt
+	Arms          map[string]*vmArm // by opcode name
+	Unhandled     []string          // opcode constants without a case
+	Default       bool
+	Undecided     []string
+	Closures      map[string]*ast.FuncLit        // by role (readByte, readOp, readU16, readUvarint, readConst, push, pop, peek, set, blockGet, blockSet), else by variable name
+	Roles         map[types.Object]string        // closure variable -> role
+	MethodRoles   map[types.Object]string        // helper written as a method of the machine -> role
+	InlineMethods map[types.Object]*ast.FuncDecl // methods of the machine interpreted in place
+	StackSize     int64
+	BlockSize     int64
+	Recv          types.Object
 }
 
 // findDispatch locates the function holding `for { ... switch <opcode> ... }`.
@@ -244,6 +245,24 @@ func (c *Ctx) vmModel() (*vmModel, error) {
 		m.MethodRoles[fn] = role
 		m.Closures[role] = lit
 		aliasOf[fn] = typeShort(sig.Recv().Type()) + "." + fd.Name.Name + "$" + role
+	}
+	// every other method of the machine is interpreted in place as well (an arm split into steps),
+	// except the two reporters, whose calls are events the rules look at
+	m.InlineMethods = map[types.Object]*ast.FuncDecl{}
+	for _, it := range c.sortedDecls() {
+		fn, ok := it.obj.(*types.Func)
+		if !ok || it.fd == fd || it.fd.Body == nil || it.fd.Recv == nil {
+			continue
+		}
+		sig := fn.Type().(*types.Signature)
+		if sig.Recv() == nil || !types.Identical(sig.Recv().Type(), c.typeOfRecv(fd)) {
+			continue
+		}
+		switch funcName(fn) {
+		case "vm.runtimeError", "vm.warning":
+			continue
+		}
+		m.InlineMethods[fn] = it.fd
 	}
 	in.Undecided = nil // classification probes are not part of the verdict
 	// statements of the loop body before and after the switch
@@ -462,13 +481,11 @@ func vmHooks(c *Ctx, m *vmModel) Hooks {
 			p.events = append(p.events, vmEvent{Kind: "const", Detail: d, Pos: e.Pos()})
 			return tagV("constant", d), true
 		default:
-			if fp := c.fieldPath(e.X); strings.HasSuffix(fp, ".Fields") {
+			if sel, isF := c.isBlockFields(e.X); isF {
 				base := "?"
-				if sel, ok := stripParens(e.X).(*ast.SelectorExpr); ok {
-					for _, bv := range in.eval(st, sel.X) {
-						base = bv.v.String()
-						break
-					}
+				for _, bv := range in.eval(st, sel.X) {
+					base = bv.v.String()
+					break
 				}
 				p.events = append(p.events, vmEvent{Kind: "lookup", Detail: "Fields of " + base + "[" + idx.String() + "]", Pos: e.Pos()})
 				return tagV("lookup", "Fields of "+base+"["+idx.String()+"]"), true
@@ -573,13 +590,11 @@ func vmHooks(c *Ctx, m *vmModel) Hooks {
 				return true
 			}
 			// map update on Fields
-			if strings.HasSuffix(c.fieldPath(ix.X), ".Fields") {
+			if sel, isF := c.isBlockFields(ix.X); isF {
 				base := ""
-				if sel, ok := stripParens(ix.X).(*ast.SelectorExpr); ok {
-					for _, bv := range in.eval(st, sel.X) {
-						base = bv.v.String()
-						break
-					}
+				for _, bv := range in.eval(st, sel.X) {
+					base = bv.v.String()
+					break
 				}
 				key := "?"
 				for _, kv := range in.eval(st, ix.Index) {
@@ -714,7 +729,7 @@ func vmHooks(c *Ctx, m *vmModel) Hooks {
 			return one(st, Value{K: vTuple, Tup: []Value{x, linV(n)}}), true
 		}
 		if callee != nil {
-			if _, isMethodHelper := m.MethodRoles[callee]; isMethodHelper {
+			if _, isMethod := m.InlineMethods[callee]; isMethod {
 				return nil, false // interpreted in place (Inline)
 			}
 			if _, isBuiltin := callee.(*types.Builtin); isBuiltin {
@@ -753,8 +768,47 @@ func vmHooks(c *Ctx, m *vmModel) Hooks {
 		return nil, false
 	}
 	h.Inline = func(fn *types.Func) bool {
-		_, ok := m.MethodRoles[fn]
+		_, ok := m.InlineMethods[fn]
 		return ok
+	}
+	// comparisons with nil of values whose nil-ness is known: the nil literal itself, and freshly made errors
+	h.Decide = func(in *Interp, st *State, cond ast.Expr) tri {
+		be, ok := stripParens(cond).(*ast.BinaryExpr)
+		if !ok || (be.Op != token.EQL && be.Op != token.NEQ) {
+			return triUnknown
+		}
+		var other ast.Expr
+		switch {
+		case isNilIdent(be.Y):
+			other = be.X
+		case isNilIdent(be.X):
+			other = be.Y
+		default:
+			return triUnknown
+		}
+		for _, vs := range in.eval(st.clone(), other) {
+			isNil, known := false, false
+			switch {
+			case vs.v.K == vTag && vs.v.Tag == "nil":
+				isNil, known = true, true
+			case vs.v.K == vTag && vs.v.Tag == "callres":
+				if d, ok := vs.v.Data.(string); ok {
+					for _, mk := range []string{"vm.runtimeError(", "fmt.Errorf(", "errors.New("} {
+						if strings.HasPrefix(d, mk) {
+							isNil, known = false, true
+						}
+					}
+				}
+			}
+			if !known {
+				return triUnknown
+			}
+			if isNil == (be.Op == token.EQL) {
+				return triTrue
+			}
+			return triFalse
+		}
+		return triUnknown
 	}
 	return h
 }
@@ -889,9 +943,9 @@ func classifyClosure(c *Ctx, in *Interp, st0 *State, lit *ast.FuncLit) string {
 			got = "set"
 		case len(p.reads) == 0 && d == 0 && has("stk:r", "tos-1") && !has("stk:w", ""):
 			got = "peek"
-		case has("mapw", ""):
+		case has("mapw", "") && !has("append", "") && !has("blk:w", "") && !has("lookup", "") && p.blk.equal(linSym("blockTos")):
 			got = "blockSet"
-		case has("blk:r", "") && !has("mapw", "") && len(p.reads) == 0 && d == 0:
+		case has("blk:r", "") && has("lookup", "") && !has("mapw", "") && !has("append", "") && !has("blk:w", "") && len(p.reads) == 0 && d == 0 && p.blk.equal(linSym("blockTos")):
 			got = "blockGet"
 		}
 		if got == "" {
@@ -907,9 +961,104 @@ func classifyClosure(c *Ctx, in *Interp, st0 *State, lit *ast.FuncLit) string {
 
 // callRole: the role of the closure called by call ("" when it is not one of the VM's helper closures).
 func (m *vmModel) callRole(c *Ctx, call *ast.CallExpr) string {
-	id, ok := stripParens(call.Fun).(*ast.Ident)
-	if !ok {
-		return ""
+	if id, ok := stripParens(call.Fun).(*ast.Ident); ok {
+		return m.Roles[c.objOf(id)]
 	}
-	return m.Roles[c.objOf(id)]
+	// the helper written as a method of the machine
+	if fn := c.callee(call); fn != nil {
+		return m.MethodRoles[fn]
+	}
+	return ""
+}
+
+// argExpr follows an identifier that is a parameter of one of the machine's
+// inlined methods back to the argument expression at its (only) call site
+// among the given nodes, and a local defined once to its definition.
+func (m *vmModel) argExpr(c *Ctx, nodes []ast.Node, e ast.Expr) ast.Expr {
+	for depth := 0; depth < 4; depth++ {
+		id, ok := stripParens(e).(*ast.Ident)
+		if !ok {
+			return e
+		}
+		obj := c.objOf(id)
+		found := false
+		for fn, fd := range m.InlineMethods {
+			k := 0
+			for _, f := range fd.Type.Params.List {
+				for _, nm := range f.Names {
+					if c.objOf(nm) == obj {
+						// the call site
+						var site *ast.CallExpr
+						n := 0
+						for _, nd := range nodes {
+							walkCalls(nd, false, func(call *ast.CallExpr) {
+								if c.callee(call) == fn {
+									site = call
+									n++
+								}
+							})
+						}
+						if n == 1 && k < len(site.Args) {
+							e = site.Args[k]
+							found = true
+						}
+					}
+					k++
+				}
+			}
+		}
+		if found {
+			continue
+		}
+		// a local with a single definition
+		for _, nd := range nodes {
+			if def, n := c.singleDef(nd, obj); n == 1 && def != nil {
+				e = def
+				found = true
+				break
+			}
+		}
+		if !found {
+			return e
+		}
+	}
+	return e
+}
+
+// isBlockFields: e is <something of type Block or *Block>.Fields
+func (c *Ctx) isBlockFields(e ast.Expr) (*ast.SelectorExpr, bool) {
+	sel, ok := stripParens(e).(*ast.SelectorExpr)
+	if !ok || sel.Sel.Name != "Fields" {
+		return nil, false
+	}
+	return sel, isNamed(c.typeOf(sel.X), bclPath, "Block")
+}
+
+// armNodes: the syntax an arm consists of — its case clause and the bodies of
+// the machine's methods it calls (transitively), which are interpreted in place.
+func (m *vmModel) armNodes(c *Ctx, arm *vmArm) []ast.Node {
+	if arm == nil || arm.Clause == nil {
+		return nil
+	}
+	nodes := []ast.Node{arm.Clause}
+	seen := map[*ast.FuncDecl]bool{}
+	for i := 0; i < len(nodes); i++ {
+		walkCalls(nodes[i], false, func(call *ast.CallExpr) {
+			if fd := m.InlineMethods[c.callee(call)]; fd != nil && !seen[fd] {
+				if _, isRole := m.MethodRoles[c.callee(call)]; isRole {
+					return // helper closures/methods with a role are looked at through their role
+				}
+				seen[fd] = true
+				nodes = append(nodes, fd.Body)
+			}
+		})
+	}
+	return nodes
+}
+
+// inspectArm runs f over all nodes of the arm.
+func (m *vmModel) inspectArm(c *Ctx, arm *vmArm, f func(ast.Node) bool) {
+	for _, n := range m.armNodes(c, arm) {
+		ast.Inspect(n, f)
+	}
 }
